@@ -24,9 +24,6 @@ func main() {
 	dump := flag.String("dump", "", "debug: dump SSA of functions whose name contains this")
 	mutant := flag.String("mutant", "", "selftest worker: run one overlay mutant by id and print its result")
 	flag.Parse()
-	if t := os.Getenv("VERIF_TIER"); t != "" && (t == "quick" || t == "thorough") {
-		*tier = t
-	}
 	if *mutant != "" {
 		os.Exit(selftest.RunMutantWorker(*repo, *verif, *mutant))
 	}
@@ -52,6 +49,14 @@ func main() {
 		}
 		return
 	}
+	nCan, canFail := selftest.Canaries(*verif)
+	if len(canFail) > 0 {
+		for _, f := range canFail {
+			fmt.Printf("SELFTEST-FAILED canary %s\n", f)
+		}
+		fmt.Println("the analysis engines do not behave as expected on the canary fixture; no property verdict is given")
+		os.Exit(1)
+	}
 	exit := 0
 	for _, id := range props {
 		r := rep.New(id, *tier, *verif, t0)
@@ -62,10 +67,14 @@ func main() {
 			}
 			continue
 		}
+		r.Selftest["canaries_passed"] = nCan
 		c := &rules.Ctx{P: p, R: r, Tier: *tier}
 		if !rules.Run(id, c) {
 			fmt.Fprintf(os.Stderr, "unknown property %q\n", id)
 			os.Exit(2)
+		}
+		if *tier == "thorough" {
+			crossCheckPlatform(c, id, *repo, *verif)
 		}
 		selftest.Run(c, id, *repo, *verif)
 		if r.Finish() != 0 {
@@ -73,4 +82,45 @@ func main() {
 		}
 	}
 	os.Exit(exit)
+}
+
+// crossCheckPlatform (thorough tier) re-loads the repository for another GOOS/GOARCH and
+// requires the same obligation keys with the same outcomes: a build-tagged or
+// platform-specific file must not hide a writer, a call site or a handler from the rules.
+func crossCheckPlatform(c *rules.Ctx, id, repo, verif string) {
+	p2, err := eng.Load(eng.LoadOpts{Dir: repo, Env: []string{"GOOS=windows", "GOARCH=386", "CGO_ENABLED=0"}})
+	if err != nil {
+		c.R.Undecided(id+"/PLATFORM", "windows-386", "", "cannot load the repository for GOOS=windows GOARCH=386: %v", err)
+		return
+	}
+	r2 := rep.New(id, "quick", verif, time.Now())
+	r2.Quiet = true
+	c2 := &rules.Ctx{P: p2, R: r2, Tier: "quick"}
+	rules.Run(id, c2)
+	a := map[string]rep.Outcome{}
+	for _, o := range c.R.Obs {
+		a[o.Key] = o.Outcome
+	}
+	var diffs []string
+	b := map[string]bool{}
+	for _, o := range r2.Obs {
+		b[o.Key] = true
+		if oo, ok := a[o.Key]; !ok {
+			diffs = append(diffs, "only on windows/386: "+o.Key)
+		} else if oo != o.Outcome {
+			diffs = append(diffs, fmt.Sprintf("%s: %s here, %s on windows/386", o.Key, oo, o.Outcome))
+		}
+	}
+	for k := range a {
+		if !b[k] {
+			diffs = append(diffs, "missing on windows/386: "+k)
+		}
+	}
+	c.R.Rule(id+"/PLATFORM", "the obligation set and every outcome are identical when the repository is loaded for GOOS=windows GOARCH=386 (no platform-specific file hides a construct from the rules)")
+	c.R.Analysed["platform cross-check: obligations compared"] = len(r2.Obs)
+	if len(diffs) > 0 {
+		c.R.Undecided(id+"/PLATFORM", "windows-386", "", "obligations differ between build configurations: %s", strings.Join(diffs, "; "))
+	} else {
+		c.R.Ok(id+"/PLATFORM", "windows-386", "", "%d obligations identical under GOOS=windows GOARCH=386", len(r2.Obs))
+	}
 }
